@@ -9,14 +9,17 @@ import SquidModel.Properties.C36
 #print axioms SquidModel.C36.decode_bound
 #print axioms SquidModel.C36.decode_no_assert
 #print axioms SquidModel.C36.encode_bound
-#print axioms SquidModel.C36.malformed_accepted_counterexample
-#print axioms SquidModel.C36.malformed_accepted_class
-#print axioms SquidModel.C36.malformed_rejected_partial
-#print axioms SquidModel.C36.accepted_iff_canonical_partial
+#print axioms SquidModel.C36.malformed_rejected
+#print axioms SquidModel.C36.accepted_iff_canonical
+#print axioms SquidModel.C36.nettle_malformed_accepted_counterexample
+#print axioms SquidModel.C36.nettle_malformed_accepted_class
+#print axioms SquidModel.C36.nettle_malformed_rejected_partial
+#print axioms SquidModel.C36.nettle_accepted_iff_canonical_partial
 #print axioms SquidModel.C36.basic_split
 #print axioms SquidModel.C36.basic_no_colon
 #print axioms SquidModel.C36.basic_result_clean
-#print axioms SquidModel.C36.basic_sound_partial
-#print axioms SquidModel.C36.nul_truncation_counterexample
+#print axioms SquidModel.C36.basic_sound
+#print axioms SquidModel.C36.basic_sound_nettle_partial
+#print axioms SquidModel.C36.basic_ctl_refused
 #print axioms SquidModel.C36.basic_buffer_safe
 #print axioms SquidModel.C36.nettle_same_tables
